@@ -78,6 +78,9 @@ func origin(v ssa.Value) ssa.Value {
 				}
 			}
 			return v
+		case *ssa.ChangeInterface:
+			v = x.X
+			continue
 		default:
 			return v
 		}
@@ -125,4 +128,50 @@ func allInstrsH(fn *ssa.Function, f func(ssa.Instruction)) {
 func isParamOfH(v ssa.Value, fn *ssa.Function) bool {
 	p, ok := origin(v).(*ssa.Parameter)
 	return ok && p.Parent() == fn
+}
+
+// ownerKey: the symbolic key of fn, or — for a helper the reference tree does not have — of the
+// known function that (uniquely, possibly through further helpers) calls it.
+func (w *World) ownerKey(f *ssa.Function) string {
+	for i := 0; i < 4 && isHelper(f); i++ {
+		sites := w.callSitesOf(f)
+		if len(sites) != 1 {
+			break
+		}
+		f = sites[0].Parent()
+	}
+	return w.funcKey(f)
+}
+
+func (w *World) ownerFn(f *ssa.Function) *ssa.Function {
+	for i := 0; i < 4 && isHelper(f); i++ {
+		sites := w.callSitesOf(f)
+		if len(sites) != 1 {
+			break
+		}
+		f = sites[0].Parent()
+	}
+	return f
+}
+
+// allPathsPass: every feasible path from the entry of fn to target contains an instruction of via before it.
+func allPathsPass(fn *ssa.Function, target ssa.Instruction, via func(ssa.Instruction) bool) (bool, string) {
+	ok, n := true, 0
+	isT := func(in ssa.Instruction) bool { return in == target }
+	err := walkPaths(entryLoc(fn), isT, nil, 100000, func(path []ssa.Instruction, end pathEnd) {
+		if !isT(path[len(path)-1]) {
+			return
+		}
+		n++
+		if countOn(path[:len(path)-1], via) == 0 {
+			ok = false
+		}
+	})
+	if err != nil {
+		return false, err.Error()
+	}
+	if n == 0 {
+		return false, "the instruction is not reachable from the entry"
+	}
+	return ok, ""
 }
